@@ -1732,4 +1732,120 @@ theorem irrelevant_keys {o : Oracle} {f : Front} {host : Bytes} {qds : List Byte
 instance (f : Front) : Decidable (GoodFront f) := by unfold GoodFront; exact inferInstance
 instance (ops : List Op) : Decidable (GoodHistory ops) := by unfold GoodHistory; exact inferInstance
 
+/-! ### listener-default HSTS refresh, authority parsing -/
+
+/-- the routing decision of a route: everything of its `RouteResult` except
+    the header-edit counts -/
+def decision (r : Route) : Option Bytes × Nat × Nat × Option Bytes × Option Bytes × Option Bytes × Option Nat × Bool :=
+  let x := r.result
+  (x.cluster, x.redirect, x.scheme, x.tmpl, x.rhost, x.rpath, x.rport, x.auth)
+
+theorem decision_refreshRoute (edit : Bool) (r : Route) : decision (refreshRoute edit r) = decision r := by
+  cases r with
+  | deny => cases edit <;> simp [refreshRoute, decision, Route.result, UNAUTHORIZED]
+  | cluster id => cases edit <;> simp [refreshRoute, decision, Route.result, UNAUTHORIZED]
+  | frontend f =>
+    simp only [refreshRoute]
+    split <;> simp only [decision, Route.result] <;> split <;> simp
+
+def mapRule3 (φ : Route → Route) (r : Rule3) : Rule3 := (r.1, r.2.1, φ r.2.2)
+def mapRule4 (φ : Route → Route) (r : Rule4) : Rule4 := (r.1, r.2.1, r.2.2.1, φ r.2.2.2)
+
+theorem ruleRank_mapRule3 (o : Oracle) (path method : Bytes) (φ : Route → Route) (r : Rule3) :
+    ruleRank o path method (mapRule3 φ r) = ruleRank o path method r := rfl
+
+theorem foldl_selStep_map (o : Oracle) (path method : Bytes) (φ : Route → Route) (l : List Rule3) :
+    ∀ (s : Sel), (l.map (mapRule3 φ)).foldl (selStep o path method) ⟨s.best, s.m.map φ⟩ =
+      ⟨(l.foldl (selStep o path method) s).best, (l.foldl (selStep o path method) s).m.map φ⟩ := by
+  induction l with
+  | nil => intro s; rfl
+  | cons c t ih =>
+    intro s
+    simp only [List.map_cons, List.foldl_cons]
+    have : selStep o path method ⟨s.best, s.m.map φ⟩ (mapRule3 φ c) =
+        ⟨(selStep o path method s c).best, (selStep o path method s c).m.map φ⟩ := by
+      simp only [selStep, ruleRank_mapRule3]
+      cases ruleRank o path method c with
+      | none => rfl
+      | some rank =>
+        simp only [Option.isNone_map]
+        split <;> simp [mapRule3]
+    rw [this, ih]
+
+theorem selectLeaf_map (o : Oracle) (path method : Bytes) (φ : Route → Route) (l : List Rule3) :
+    selectLeaf o (l.map (mapRule3 φ)) path method = (selectLeaf o l path method).map φ := by
+  have := foldl_selStep_map o path method φ l ⟨(0, 0, 0), none⟩
+  simp only [Option.map_none] at this
+  simp only [selectLeaf, this]
+
+theorem scanList_map (o : Oracle) (φ : Route → Route) (l : List Rule4) (host path method : Bytes) :
+    scanList o (l.map (mapRule4 φ)) host path method = (scanList o l host path method).map φ := by
+  simp only [scanList_eq, List.find?_map]
+  have : (rule4Matches o host path method ∘ mapRule4 φ) = rule4Matches o host path method := by
+    funext r; rfl
+  rw [this]
+  cases List.find? (rule4Matches o host path method) l <;> rfl
+
+/-- lookups after `refresh_inheriting_hsts`: the same rule is selected, its route refreshed -/
+theorem lookupRoute_refresh (o : Oracle) (edit : Bool) (s : Router) (host path method : Bytes) :
+    lookupRoute o (refreshHsts edit s) host path method = (lookupRoute o s host path method).map (refreshRoute edit) := by
+  have hpre := scanList_map o (refreshRoute edit) s.pre host path method
+  have hpost := scanList_map o (refreshRoute edit) s.post host path method
+  have htree : lookupTree o (s.tree.mapV (fun l => l.map (mapRule3 (refreshRoute edit)))) host path method =
+      (lookupTree o s.tree host path method).map (refreshRoute edit) := by
+    simp only [lookupTree, domainLookup, lookup_mapV]
+    cases Trie.lookup o.seg true s.tree (splitHost host) with
+    | none => rfl
+    | some kv => simp [mapSnd, selectLeaf_map]
+  simp only [lookupRoute, refreshHsts]
+  change (match scanList o (s.pre.map (mapRule4 (refreshRoute edit))) host path method with
+    | some r => some r
+    | none => match lookupTree o (s.tree.mapV (fun l => l.map (mapRule3 (refreshRoute edit)))) host path method with
+      | some r => some r
+      | none => scanList o (s.post.map (mapRule4 (refreshRoute edit))) host path method) = _
+  rw [hpre, htree, hpost]
+  cases scanList o s.pre host path method <;> cases lookupTree o s.tree host path method <;>
+    cases scanList o s.post host path method <;> rfl
+
+
+theorem takeWhile_append_stop {p : Nat → Bool} (l : List Nat) (c : Nat) (t : List Nat)
+    (hl : ∀ x ∈ l, p x = true) (hc : p c = false) :
+    (l ++ c :: t).takeWhile p = l ∧ (l ++ c :: t).dropWhile p = c :: t := by
+  induction l with
+  | nil => simp [List.takeWhile, List.dropWhile, hc]
+  | cons a r ih =>
+    have ha := hl a (by simp)
+    have := ih (fun x hx => hl x (by simp [hx]))
+    simp [List.takeWhile, List.dropWhile, ha, this.1, this.2]
+
+theorem takeWhile_all {p : Nat → Bool} (l : List Nat) (hl : ∀ x ∈ l, p x = true) :
+    l.takeWhile p = l ∧ l.dropWhile p = [] := by
+  induction l with
+  | nil => simp
+  | cons a r ih =>
+    have ha := hl a (by simp)
+    have := ih (fun x hx => hl x (by simp [hx]))
+    simp [List.takeWhile, List.dropWhile, ha, this.1, this.2]
+
+/-- a plain hostname is its own authority -/
+theorem authorityHost_plain (host : Bytes) (hne : host ≠ []) (hh : ∀ x ∈ host, isHostChar x = true) :
+    authorityHost host = some host := by
+  obtain ⟨h1, h2⟩ := takeWhile_all host hh
+  have : host.isEmpty = false := by cases host <;> simp_all
+  simp [authorityHost, h1, h2, this]
+
+/-- a valid port is dropped: `host:port` names the same host -/
+theorem authorityHost_port (host digits : Bytes) (hne : host ≠ []) (hh : ∀ x ∈ host, isHostChar x = true)
+    (hd : ∀ x ∈ digits, isDigit x = true) (hdn : digits ≠ [])
+    (hv : 1 ≤ digitsVal digits ∧ digitsVal digits ≤ 65535) :
+    authorityHost (host ++ 58 :: digits) = some host := by
+  obtain ⟨h1, h2⟩ := takeWhile_append_stop host 58 digits hh (by decide)
+  obtain ⟨d1, d2⟩ := takeWhile_all digits hd
+  have he : host.isEmpty = false := by cases host <;> simp_all
+  have hde : digits.isEmpty = false := by cases digits <;> simp_all
+  have hv0 : ¬ digitsVal digits = 0 := by omega
+  have hv1 : ¬ digitsVal digits > 65535 := by omega
+  simp [authorityHost, h1, h2, d1, d2, he, hde, hv0, hv1]
+
+
 end Sozu.Router
